@@ -233,6 +233,29 @@ def step (st : St) : List String → St × String
       let ns := (os.filter (fun o => match o with | .seed _ => true | _ => false)).length
       (st, s!"ok {hex (delivered os)} {nt} {ns} {boolStr s.failed} {rest.length}")
     | _, _, _ => (st, "bad-op")
+  | ["cli.readall", fx, seed, bufsize, errc, chunks] =>
+    -- a reader that calls Read(buffer of bufsize) until the first error; the LAST chunk arrives
+    -- together with the error of class errc ("-": no error, the reader blocks at the end)
+    match fixed? fx, unhex? seed, bufsize.toNat?, unhexList? chunks with
+    | some fx, some seed, some n, some cs =>
+      let ec : Option (Option Nat) := if errc == "-" then some none else errc.toNat?.map some
+      match ec with
+      | none => (st, "bad-op")
+      | some ec =>
+        if n = 0 then (st, "bad-op") else
+        let k := (initCrypto realPrims seed).2
+        let script : List NetRead := match cs.reverse with
+          | [] => (match ec with | some c => [([], some c)] | none => [])
+          | l :: r => (r.reverse.map (fun c => (c, none))) ++ [(l, ec)]
+        let rd := if fx then ConnRd.read realPrims k n else ConnRd.readOld realPrims k n
+        let total := cs.foldl (fun a c => a + c.length) 0
+        let (d, e) := readAll rd (total + script.length + 4) ⟨Rx.init 0, [], [], none⟩ script
+        let es := match e with
+          | none => "none"
+          | some .invalidPacket => "invalid"
+          | some (.net c) => s!"net:{c}"
+        (st, s!"ok {hex d} {es}")
+    | _, _, _, _ => (st, "bad-op")
   | ["padburst", bl, sample] =>
     match bl.toNat?, sample.toNat? with
     | some bl, some s =>
